@@ -137,6 +137,9 @@ class RayFan:
 
         # remove distortion
         wave_ref = self.optic.primary_wavelength
+        if f'{wave_ref}' not in [f'{w}' for w in self.wavelengths]:
+            # explicit wavelength list without the primary: first one listed
+            wave_ref = self.wavelengths[0]
         for field in self.fields:
             x_offset = data[f'{field}'][f'{wave_ref}']['x'][self.num_points//2]
             y_offset = data[f'{field}'][f'{wave_ref}']['y'][self.num_points//2]
